@@ -335,7 +335,7 @@ class PosKwdBinding(AbstractBinding[P], tp.Generic[P]):
         # Unmarshal the args
         umargs = (*(binding[i](v) if i in binding else v for i, v in enumerate(args)),)
         # Unmarshal the keyword arguments.
-        umkwargs = {k: binding[k](v) if k in binding else k for k, v in kwargs.items()}
+        umkwargs = {k: binding[k](v) if k in binding else v for k, v in kwargs.items()}
         return umargs, umkwargs
 
 
@@ -394,7 +394,7 @@ class KwdArgsBinding(AbstractBinding[P], tp.Generic[P]):
         # Unmarshal the positional arguments
         umargs = (*(varpos(v) for v in args),)
         # Unmarshal the keyword arguments.
-        umkwargs = {k: binding[k](v) if k in binding else k for k, v in kwargs.items()}
+        umkwargs = {k: binding[k](v) if k in binding else v for k, v in kwargs.items()}
         return umargs, umkwargs
 
 
@@ -415,7 +415,7 @@ class KwdBinding(AbstractBinding[P], tp.Generic[P]):
     ) -> tuple[P.args, P.kwargs]:
         binding = self.binding
         # Unmarshal the keyword arguments.
-        umkwargs = {k: binding[k](v) if k in binding else k for k, v in kwargs.items()}
+        umkwargs = {k: binding[k](v) if k in binding else v for k, v in kwargs.items()}
         return args, umkwargs
 
 
@@ -464,7 +464,7 @@ class PosOrKwdBinding(AbstractBinding[P], tp.Generic[P]):
         # Unmarshal the positional args.
         umargs = (*(binding[i](v) if i in binding else v for i, v in enumerate(args)),)
         # Unmarshal the keyword arguments.
-        umkwargs = {k: binding[k](v) if k in binding else k for k, v in kwargs.items()}
+        umkwargs = {k: binding[k](v) if k in binding else v for k, v in kwargs.items()}
         return umargs, umkwargs
 
 
